@@ -14,18 +14,18 @@ var Calls int64
 // Reset reseeds the global source.
 func Reset(seed int64) { src = rand.New(rand.NewSource(seed)); Calls = 0 }
 
-func Seed(seed int64)               { Calls++; src.Seed(seed) }
-func Int() int                      { Calls++; return src.Int() }
-func Intn(n int) int                { Calls++; return src.Intn(n) }
-func Int31() int32                  { Calls++; return src.Int31() }
-func Int31n(n int32) int32          { Calls++; return src.Int31n(n) }
-func Int63() int64                  { Calls++; return src.Int63() }
-func Int63n(n int64) int64          { Calls++; return src.Int63n(n) }
-func Uint32() uint32                { Calls++; return src.Uint32() }
-func Uint64() uint64                { Calls++; return src.Uint64() }
-func Float32() float32              { Calls++; return src.Float32() }
-func Float64() float64              { Calls++; return src.Float64() }
-func NormFloat64() float64          { Calls++; return src.NormFloat64() }
-func ExpFloat64() float64           { Calls++; return src.ExpFloat64() }
-func Perm(n int) []int              { Calls++; return src.Perm(n) }
+func Seed(seed int64)                 { Calls++; src.Seed(seed) }
+func Int() int                        { Calls++; return src.Int() }
+func Intn(n int) int                  { Calls++; return src.Intn(n) }
+func Int31() int32                    { Calls++; return src.Int31() }
+func Int31n(n int32) int32            { Calls++; return src.Int31n(n) }
+func Int63() int64                    { Calls++; return src.Int63() }
+func Int63n(n int64) int64            { Calls++; return src.Int63n(n) }
+func Uint32() uint32                  { Calls++; return src.Uint32() }
+func Uint64() uint64                  { Calls++; return src.Uint64() }
+func Float32() float32                { Calls++; return src.Float32() }
+func Float64() float64                { Calls++; return src.Float64() }
+func NormFloat64() float64            { Calls++; return src.NormFloat64() }
+func ExpFloat64() float64             { Calls++; return src.ExpFloat64() }
+func Perm(n int) []int                { Calls++; return src.Perm(n) }
 func Shuffle(n int, f func(i, j int)) { Calls++; src.Shuffle(n, f) }
